@@ -4,6 +4,8 @@ from pyg_base._types import is_str
 from pyg_base._ulist import ulist
 from copy import copy
 
+_copy = copy ## __sub__ has a parameter called copy
+
 __all__ = ['dictattr', 'relabel']
 
 class dictattr(dict):
@@ -65,6 +67,7 @@ class dictattr(dict):
             branch = res
             for k in key[:-1]:
                 if k in branch:
+                    branch[k] = _copy(branch[k]) ## res shares its nested branches with self: delete from a copy of the path
                     branch = branch[k]
                 else:
                     return res
